@@ -19,10 +19,24 @@ CheckOf(e) ==
   CASE e.e = "Iface" -> IfaceCheck(e)
     [] e.e = "Fwd" -> FwdCheck(e)
     [] e.e = "Uri" -> UriCheck(e)
+    [] e.e = "Client" -> ClientCheck(e)
+    [] e.e = "Call" -> ECallCheck(e)
+    [] e.e = "SinkRecv" -> ERecvCheck(e)
+    [] e.e = "Reply" -> EReplyCheck(e)
+    [] e.e = "Ret" -> ERetCheck(e)
+    [] e.e = "Result" -> EResultCheck(e)
+    [] e.e = "End" -> EEndCheck(e)
     [] OTHER -> "harness.unknownEvent"
 
 UpdOf(e) ==
   CASE e.e = "Iface" -> IfaceUpd(e)
+    [] e.e = "Client" -> ClientUpd(e)
+    [] e.e = "Call" -> ECallUpd(e)
+    [] e.e = "SinkRecv" -> ERecvUpd(e)
+    [] e.e = "Reply" -> EReplyUpd(e)
+    [] e.e = "Ret" -> ERetUpd(e)
+    [] e.e = "Result" -> EResultUpd(e)
+    [] e.e = "End" -> EEndUpd(e)
     [] OTHER -> NoUpd
 
 TNext == /\ verdict = "ok"
